@@ -34,6 +34,14 @@ theorem wmulS_ok (w : Option Nat) (a : Sh) (h : ∀ l, w = some l → l = a.1) :
   | none => rfl
   | some l => simp [h l rfl]
 
+/-- **c08_rejected_update**: a parameter vector the model rejects – in particular one of the wrong
+length – never reaches a dimension check or any other operation of the problem: the update ends
+with an empty cache, whatever the shapes of the problem and of the model's other answers are (no
+contract assumed for them). -/
+theorem c08_rejected_update (M : ShapeModel) (P : PShape) (h : M.setParamsOk = false) :
+    setParamsS M P = .ok none := by
+  simp [setParamsS, h]
+
 /-- **c08_set_params_no_panic**: `set_params` never panics and leaves a cache of the expected shapes
 (or none). -/
 theorem c08_set_params_no_panic (M : ShapeModel) (hL : M.Lawful) (P : PShape) (hB : Built M P) :
